@@ -14,17 +14,22 @@ let canon (b : bdd) : s =
   | Panic -> A "PANIC"
   | OutOfFuel -> A "FUEL"
 
-let aux_of (res : s) : s =
-  let bdd_part = match res with
+let bdd_part (res : s) : s option = match res with
     | L (A "b" :: _) -> Some res
     | L [A "S"; (L (A "b" :: _) as b)] -> Some b
     | L [A "OK"; (L (A "b" :: _) as b)] -> Some b
-    | _ -> None in
-  match bdd_part with
+    | _ -> None
+
+(* aux = (wf(impl) canonical(impl) canon(impl) canon(model)) *)
+let aux_of (res : s) (model : s) : s =
+  match bdd_part res with
   | None -> A "-"
   | Some b ->
     let b = d_bdd b in
-    L [e_bool (wfb b); e_bool (canonicalb b); canon b]
+    let mc = match bdd_part model with
+      | None -> A "-"
+      | Some m -> let m = d_bdd m in if canonicalb m then e_bdd m else canon m in
+    L [e_bool (wfb b); e_bool (canonicalb b); canon b; mc]
 
 let e_obdd = e_outcome e_bdd
 
@@ -56,6 +61,11 @@ let run (c : s list) : s =
     let o = [None; Some false; Some true] in
     A ("t:" ^ String.concat "" (List.concat_map (fun l -> List.map (fun r ->
         match op l r with None -> "-" | Some false -> "0" | Some true -> "1") o) o))
+  | A "not" :: x :: _ -> e_bdd (bdd_not (d_bdd x))
+  | A "ite" :: x :: y :: z :: _ -> e_obdd (if_then_else (d_bdd x) (d_bdd y) (d_bdd z))
+  | A "tern" :: t :: x :: y :: z :: _ -> e_obdd (ternary_op (d_bdd x) (d_bdd y) (d_bdd z) (op3_of_table (d_table t)))
+  | A "ftern" :: t :: f1 :: f2 :: f3 :: fo :: x :: y :: z :: _ ->
+    e_obdd (fused_ternary_flip_op (d_bdd x) (d_bdd y) (d_bdd z) (d_optvar f1) (d_optvar f2) (d_optvar f3) (d_optvar fo) (op3_of_table (d_table t)))
   | A "eval" :: x :: v :: _ -> e_bool (eval (d_bdd x) (val_of_list (d_bits 'v' v)))
   | A "is_true" :: x :: _ -> e_bool (N.eqb (size (d_bdd x)) (n_of_int 2))
   | A "is_false" :: x :: _ -> e_bool (N.eqb (size (d_bdd x)) (n_of_int 1))
@@ -72,7 +82,7 @@ let () =
          match parse line with
          | L [id; L call; res] ->
            let model = (try run call with Bad m -> A ("BAD:" ^ m) | Stack_overflow -> A "STACK") in
-           let aux = (try aux_of res with Bad m -> A ("BAD:" ^ m)) in
+           let aux = (try aux_of res model with Bad m -> A ("BAD:" ^ m)) in
            print_string (to_string (L [id; model; aux])); print_newline ()
          | _ -> prerr_endline ("bad transcript line: " ^ line)
        end
